@@ -5,7 +5,7 @@ worktree) and then evaluates it against ./check Cxx.  Results: /verif/seeded/res
 import json, os, subprocess, sys, glob, concurrent.futures, re
 import os as _os
 OUT = _os.environ.get('SEED_OUT', 'out')
-R = '/verif/seeded/results.jsonl' if OUT == 'out' else '/verif/seeded/results2.jsonl'
+R = '/verif/seeded/results%s.jsonl' % OUT[3:]
 done = set()
 if os.path.exists(R):
     for l in open(R):
